@@ -108,7 +108,7 @@ func sel(k, v string) map[string]interface{} {
 
 type podSt struct {
 	name  string
-	phase int // 0 Running+Ready, 1 Pending, 2 Failed, 3 Running not ready
+	phase int // 0 Running+Ready, 1 Pending, 2 Failed (phase; kstatus: Current), 3 Running not ready, 4 Running with a crash-looping container (kstatus: Failed)
 }
 type rsSt struct {
 	name         string
@@ -130,8 +130,12 @@ type depSt struct {
 
 func pod(ns string, p podSt, lk, lv string) *unstructured.Unstructured {
 	u := mkObj("v1", "Pod", ns, p.name, 0, map[string]string{lk: lv})
-	phase := []string{"Running", "Pending", "Failed", "Running"}[p.phase]
+	phase := []string{"Running", "Pending", "Failed", "Running", "Running"}[p.phase]
 	st := map[string]interface{}{"phase": phase}
+	if p.phase == 4 {
+		st["containerStatuses"] = []interface{}{map[string]interface{}{"name": "c",
+			"state": map[string]interface{}{"waiting": map[string]interface{}{"reason": "CrashLoopBackOff"}}}}
+	}
 	if p.phase == 0 {
 		st["conditions"] = []interface{}{map[string]interface{}{"type": "Ready", "status": "True"}}
 	}
@@ -184,7 +188,7 @@ func genDep(r *rand.Rand, rsNames, podNames []string) depSt {
 		rs := rsSt{name: rsNames[i], gen: 1, replicas: d.replicas}
 		rs.ready = rs.replicas * int64(r.Intn(2))
 		for j := 0; j < r.Intn(3) && pn < len(podNames); j++ {
-			rs.pods = append(rs.pods, podSt{name: podNames[pn], phase: r.Intn(4)})
+			rs.pods = append(rs.pods, podSt{name: podNames[pn], phase: r.Intn(5)})
 			pn++
 		}
 		d.rss = append(d.rss, rs)
@@ -222,7 +226,7 @@ func mutDep(r *rand.Rand, d depSt, rsNames, podNames []string) depSt {
 			i := r.Intn(len(n.rss))
 			if len(n.rss[i].pods) > 0 {
 				j := r.Intn(len(n.rss[i].pods))
-				n.rss[i].pods[j].phase = r.Intn(4)
+				n.rss[i].pods[j].phase = r.Intn(5)
 			}
 		}
 	default:
@@ -253,6 +257,7 @@ func runReal(r *rand.Rand, maxPolls int) (*scenario, observation) {
 	cmGen := int64(1)
 	cmBroken := r.Intn(3) == 0
 	ssReady := int64(0)
+	ssGen := int64(1)
 	ssPods := []podSt{{name: "q1", phase: 1}}
 	np := 1 + r.Intn(maxPolls)
 	var snaps []snapshot
@@ -263,13 +268,16 @@ func runReal(r *rand.Rand, maxPolls int) (*scenario, observation) {
 			if r.Intn(5) == 0 {
 				cmGen++
 			}
-			if r.Intn(4) == 0 {
+			if r.Intn(2) == 0 {
 				ssReady = 1 - ssReady
-				ssPods[0].phase = r.Intn(4)
+				ssPods[0].phase = r.Intn(5)
+			}
+			if r.Intn(4) == 0 {
+				ssGen++ // spec change already observed by the controller: only the generation differs
 			}
 			if r.Intn(6) == 0 {
 				if len(ssPods) == 1 {
-					ssPods = append(ssPods, podSt{name: "q2", phase: r.Intn(4)})
+					ssPods = append(ssPods, podSt{name: "q2", phase: r.Intn(5)})
 				} else {
 					ssPods = ssPods[:1]
 				}
@@ -288,10 +296,10 @@ func runReal(r *rand.Rand, maxPolls int) (*scenario, observation) {
 			s.objs = append(s.objs, cm)
 		}
 		s.objs = append(s.objs, mkObj("v1", "ConfigMap", "ns2", "a", 0, nil))
-		ss := mkObj("apps/v1", "StatefulSet", "ns2", "s", 1, nil)
+		ss := mkObj("apps/v1", "StatefulSet", "ns2", "s", ssGen, nil)
 		ss.Object["spec"] = map[string]interface{}{"replicas": int64(1), "selector": sel("ss", "s"),
 			"updateStrategy": map[string]interface{}{"type": "RollingUpdate"}}
-		ss.Object["status"] = map[string]interface{}{"observedGeneration": int64(1), "replicas": int64(1),
+		ss.Object["status"] = map[string]interface{}{"observedGeneration": ssGen, "replicas": int64(1),
 			"readyReplicas": ssReady, "currentReplicas": int64(1), "updatedReplicas": int64(1),
 			"currentRevision": "x", "updateRevision": "x"}
 		s.objs = append(s.objs, ss)
